@@ -102,6 +102,15 @@ Theorem C12_json_outside_known : forall fs lits,
 Proof. exact json_agree. Qed.
 Print Assumptions C12_json_outside_known.
 
+(* the refusal direction, without any hypothesis on literals or defaults: a request the local parser
+   refuses only for its explicit nulls (a null for a field that is not nullable, with or without a
+   default) has content that every peer refuses too *)
+Theorem C12_json_null_refusal_agrees : forall fs lits j,
+  NoDup (map short_of fs) ->
+  local_store fs lits = None -> forced_store fs lits = Some j -> conform (map lf fs) (Some j) = false.
+Proof. exact json_null_refusal_agrees. Qed.
+Print Assumptions C12_json_null_refusal_agrees.
+
 (* hypotheses are satisfiable: a move between rooms with two references added, an own and a foreign
    reference removed under the all-rows right is accepted on both sides; a foreign row with the
    own-rows right is refused on both; an integer literal for a Float field is stored as a float *)
